@@ -7,12 +7,14 @@ def run(res, work, tier, seed):
     vlib.stage_specs(work)
     m3common.model(res, work, tier, [("WeakPendingAfterDoneCheck", "NoSendOnClosedQueue"), ("WeakCloseNoSpin", "NoSendOnClosedQueue"), ("WeakFlushIgnoresDone", "NoSendOnClosedQueue"),
                                      ("WeakSecondCloseOk", "SecondCloseErrors", dict(Closers='{"c1", "c2"}', Flushers="{}")), ("WeakLeakPendingOnDone", "NoDeadlock")])
-    m3common.sched_runs(res, work, tier, seed, m3common.C14)
+    m3common.sched_runs(res, work, tier, seed, m3common.C14, step_level=True)
     res.rule = ("executions of the real M3 reporter under the controlled scheduler against loopback UDP sinks: exhaustive DFS over the thread choices at the handshake points "
                 "(pending++ / done check / select-send / pending-- against CAS done / spin / close donech / close queue / wait, and the batching goroutine's receive) for one producer x "
                 "Close + late report, one producer x two concurrent Close callers, Flush x Close, two producers x Close with queue size 1; seeded random schedules over all hook points for "
                 "larger mixes (2-4 producers of all four kinds, Flush, 1-2 Close callers, queue 1 / 2 / 3 / 4096, Compact and Binary, 1 and 3 destinations, 420-byte packets, no Close at all). "
                 "A panic in any thread, a deadlock (no thread enabled and not all finished; a Close that spins without anybody else moving), a second nil from Close, an emitted late report, "
-                "reporter goroutines alive after Close returned, or pending != 0 at the end is a violation. Distinct by schedule (thread@point sequence).")
+                "reporter goroutines alive after Close returned, or pending != 0 at the end is a violation. Distinct by schedule (thread@point sequence). In addition every granted "
+                "step of the four DFS scenarios (thread, label, projection pending / done / queue length before the step) is replayed through the actions of M3Reporter.tla (M3StepTrace: "
+                "step-level conformance; a corrupted projection and a removed step are shown to be rejected on every run).")
     res.assumptions += ["schedule points are the verif-tagged hooks; code between two hooks of one goroutine is atomic w.r.t. the other scenario goroutines; the reporter's clock goroutine has no hooks and runs freely",
                         "data-race freedom is not decided here (not expressible in TLA+); the thorough tier re-runs the random scenarios with the Go race detector as an observation channel"]
